@@ -126,9 +126,19 @@ def parse_facts(schema_text):
     return facts
 
 
-def transform(text, repo='/repo', facts=None):
+def parse_cfacts(schema_text):
+    """`-- @expect-c <Stem>: int <lo>..<hi> [ext] | int - | size <lo>..<hi> [ext] | size -` : the INTEGER range / SIZE constraint of one
+    component (Stem = the generator's name of its constraint type, ___asn1rs_<Stem>Constraint), derived by hand from the schema"""
+    out = {}
+    for m in re.finditer(r'--\s*@expect-c\s+(\w+)\s*:\s*(int|size)\s+(-|(-?\d+)\.\.(-?\d+))(\s+ext)?\s*$', schema_text, re.M):
+        out[m.group(1)] = (m.group(2), None if m.group(3) == '-' else (int(m.group(4)), int(m.group(5))), bool(m.group(6)))
+    return out
+
+
+def transform(text, repo='/repo', facts=None, cfacts=None):
     rules = {}
     facts = facts or {}
+    cfacts = cfacts or {}
 
     def fire(rule, n=1):
         rules[rule] = rules.get(rule, 0) + n
@@ -245,6 +255,31 @@ def transform(text, repo='/repo', facts=None):
         fire('G12')
     out.append(t[pos:])
     t = ''.join(out)
+    # G13 (components): INTEGER range / SIZE constraint constants against the `-- @expect-c` lines
+    out = []
+    pos = 0
+    seen_c = set()
+    for m in re.finditer(r'impl (numbers|octetstring|bitstring|sequenceof|setof|utf8string|ia5string|numericstring|printablestring|visiblestring)::Constraint(?: < (\w+) >)? for ___asn1rs_(\w+)Constraint \{', t):
+        mod, nty, stem = m.group(1), m.group(2), m.group(3)
+        if stem not in cfacts:
+            continue
+        kind, rng, ext = cfacts[stem]
+        if (kind == 'int') != (mod == 'numbers'):
+            raise GlueError('@expect-c %s: declared %s but the macro emits %s::Constraint' % (stem, kind, mod))
+        seen_c.add(stem)
+        end = balanced(t, m.end() - 1)
+        c = '<___asn1rs_%sConstraint as %s::Constraint%s>' % (stem, mod, ('<%s>' % nty) if nty else '')
+        ity = 'i64' if kind == 'int' else 'u64'
+        cl = ['%s::MIN == %s' % (c, 'None::<%s>' % ity if rng is None else 'Some((%d) as %s)' % (rng[0], ity)),
+              '%s::MAX == %s' % (c, 'None::<%s>' % ity if rng is None else 'Some((%d) as %s)' % (rng[1], ity)),
+              '%s::EXTENSIBLE == %s' % (c, 'true' if ext else 'false')]
+        out.append(t[pos:end] + ' proof fn verif_g13_consts_c_%s() ensures %s, /*B*/{ }' % (stem, ', '.join(cl)))
+        pos = end
+        fire('G13')
+    out.append(t[pos:])
+    t = ''.join(out)
+    if set(cfacts) - seen_c:
+        raise GlueError('@expect-c names constraint types the macro output does not define: %s' % ', '.join(sorted(set(cfacts) - seen_c)))
     # G13: the hand-derived facts of the zoo schema (`-- @expect` lines) as proof obligations on the generated constants, on the kind of
     # descriptor chosen per component (owns a presence bit or not) and on the order in which the generated code visits components / numbers items
     out = []
